@@ -220,7 +220,7 @@ func runCrashWorkload(cfg CrashCfg, seed uint64, cas int, res *CrashRes) *crashW
 		case cfg.BigFiles && big == 1 && i == cfg.NOps*2/3:
 			big = 2
 			o := s.m.lookupIn(s.m.Objs[s.m.Root], "big")
-			variant := []int{0, 0, 2, 3, 1, 2, 3, 1}[cas%8]
+			variant := []int{0, 0, 2, 3, 1, 2, 3, 1}[(cas+cas/4)%8]
 			switch {
 			case variant == 1 || o == nil || o.FH == nil:
 				op = &Op{K: OpRemove, H: s.srv.Root, Name: "big"}
@@ -231,10 +231,14 @@ func runCrashWorkload(cfg CrashCfg, seed uint64, cas int, res *CrashRes) *crashW
 			case variant == 3:
 				// truncate to a block boundary, append right away, then grow
 				// over what lies beyond the appended bytes
-				sz := uint64(rng.Intn(3)) * BlockSize
+				sz := uint64(1+rng.Intn(2)) * BlockSize
 				doOne(&Op{K: OpSetattr, H: o.FH, SetSize: true, Size: sz})
 				s.nextUid++
-				doOne(&Op{K: OpWrite, H: o.FH, Off: sz, Count: 100, DataLen: 100, Uid: s.nextUid, Stable: 2})
+				woff := sz
+				if sz >= BlockSize {
+					woff = sz - uint64(1+rng.Intn(60)) // across the new end
+				}
+				doOne(&Op{K: OpWrite, H: o.FH, Off: woff, Count: 100, DataLen: 100, Uid: s.nextUid, Stable: 2})
 				doOne(&Op{K: OpSetattr, H: o.FH, SetSize: true, Size: sz + 3*BlockSize + 77})
 				op = &Op{K: OpRead, H: o.FH, Off: 0, Count: 65536}
 			default:
@@ -554,7 +558,9 @@ func (w *crashWork) continuation(srv *Srv, match int, shrinking []uint64, add fu
 			switch o.Kind {
 			case KReg:
 				s.nextUid++
-				s.exec(&Op{K: OpWrite, H: o.FH, Off: o.Size, Count: 100, DataLen: 100, Uid: 900000 + s.nextUid, Stable: 2})
+				// across the end (if the crash cut a truncation short, what lies
+				// beyond the end is still attached)
+				s.exec(&Op{K: OpWrite, H: o.FH, Off: o.Size - minU64(o.Size, 37), Count: 100, DataLen: 100, Uid: 900000 + s.nextUid, Stable: 2})
 				s.exec(&Op{K: OpRead, H: o.FH, Off: 0, Count: 65536})
 				// grow over whatever lies beyond the end and look at it
 				end := o.Size
